@@ -1080,6 +1080,12 @@ func (f *Flow) assign(env Env, t *Term, s ISet) {
 		if a != nil && ok {
 			if _, changed := a.wrap(bits, signed); !changed {
 				f.assign(env, t.A, s)
+			} else if sb, ss, okS := intTypeInfo(f.w, t.A.T); okS && sb == bits {
+				// a same-width conversion (int(kind) of an unsigned kind) is a bijection
+				// modulo 2^n: the operand lies in the pre-image of s, which is s re-read in
+				// the operand's type (`int(kind) < len(table)` failing bounds kind itself)
+				nw, _ := s.wrap(sb, ss)
+				f.assign(env, t.A, nw)
 			}
 		}
 	case TBin:
